@@ -151,4 +151,33 @@ for (const st of spec.structs) {
         res.makeArgs = call ? ser(call[1]) : null;
     } catch (e) { res.makeError = String(e); }
 }
+// (g) Result / Option returns through a receive buffer
+out.__returns = [];
+const Op = await cls("Op");
+for (const rs of spec.returns || []) {
+    const r = {};
+    out.__returns.push(r);
+    try {
+        const run = (fill) => {
+            stub.dvReset();
+            stub.dvState.onCall = (k, args) => { if (k === rs.sym) { fill(args[0]); } return undefined; };
+            let outcome;
+            try { const v = Op[rs.method](); outcome = (v === null || v === undefined) ? "null" : "object"; }
+            catch (e) { outcome = (e && e.cause !== undefined) ? "threw-with-cause" : "threw:" + String(e).split("\n")[0].slice(0, 120); }
+            stub.dvState.onCall = null;
+            return outcome;
+        };
+        r.okRun = run((p) => {
+            const m = new Uint8Array(wasm.memory.buffer, p, rs.total); m.fill(0);
+            if (rs.okBytesHex) m.set(Buffer.from(rs.okBytesHex, "hex")); m[rs.flagOff] = 1;
+        });
+        r.allocs = stub.dvAllocs.slice();
+        r.errRun = run((p) => {
+            const m = new Uint8Array(wasm.memory.buffer, p, rs.total); m.fill(0);
+            if (rs.errBytesHex) m.set(Buffer.from(rs.errBytesHex, "hex"));
+            for (let i = rs.maxPayload; i < rs.flagOff; i++) m[i] = 1;    // padding inside the union
+            m[rs.flagOff] = 0;
+        });
+    } catch (e) { r.error = String(e && e.stack || e).split("\n").slice(0, 3).join(" | "); }
+}
 console.log(JSON.stringify(out));
